@@ -43,6 +43,11 @@ let parse_all (s : string) : sexp list =
 (* ---------- conversions ---------- *)
 let rec nat_of_int (i : int) : nat = if i <= 0 then O else S (nat_of_int (i - 1))
 let rec int_of_nat (n : nat) : int = match n with O -> 0 | S m -> 1 + int_of_nat m
+let rec pos_of_int (i : int) : positive =
+  if i = 1 then XH else if i land 1 = 0 then XO (pos_of_int (i lsr 1)) else XI (pos_of_int (i lsr 1))
+let z_of_int (i : int) : z = if i = 0 then Z0 else if i > 0 then Zpos (pos_of_int i) else Zneg (pos_of_int (-i))
+let rec int_of_pos (p : positive) : int = match p with XH -> 1 | XO q -> 2 * int_of_pos q | XI q -> 2 * int_of_pos q + 1
+let int_of_z (x : z) : int = match x with Z0 -> 0 | Zpos p -> int_of_pos p | Zneg p -> - (int_of_pos p)
 let fl (x : float) : carrier = Obj.repr x
 let unfl (c : carrier) : float = (Obj.obj c : float)
 let atom = function Atom a -> a | L _ -> failwith "atom expected"
@@ -66,9 +71,72 @@ let comm_of s : commspec = match lst s with
   | [Atom "prop"; c] -> CmProp (num_of c)
   | [Atom "maxflat"; a; b] -> CmMaxFlat (num_of a, num_of b)
   | _ -> failwith "comm"
-let rec spec_of s : unit nspec = match lst s with
+let zx s = z_of_int (int_of s)
+let off_of m d : offset = { o_months = zx m; o_days = zx d }
+let pkind_of s = match atom s with
+  | "daily" -> PDaily | "weekly" -> PWeekly | "monthly" -> PMonthly | "quarterly" -> PQuarterly
+  | "yearly" -> PYearly | a -> failwith ("pkind " ^ a)
+let pred_of s = match atom s with
+  | "nonempty" -> PNonEmpty | "empty" -> PEmpty | "true" -> PTrue | "false" -> PFalse | a -> failwith ("pred " ^ a)
+let titem_of s = match atom s with
+  | "selected" -> TSelected | "weights" -> TWeights | "stat" -> TStat | a -> failwith ("titem " ^ a)
+let nkind_of s = match atom s with "strategy" -> KStrategy | _ -> KSecClass (class_of s)
+let wlist_of s = List.map (fun kv -> match lst kv with [k; v] -> (natx k, num_of v) | _ -> failwith "wlist") (lst s)
+let rec algo_of s : algo = match lst s with
+  | [Atom "runonce"] -> ARunOnce false
+  | [Atom "runperiod"; k; a; b; c] -> ARunPeriod (pkind_of k, bool_of a, bool_of b, bool_of c)
+  | [Atom "runondate"; ds] -> ARunOnDate (List.map zx (lst ds))
+  | [Atom "runafterdate"; d] -> ARunAfterDate (zx d)
+  | [Atom "runafterdays"; d] -> ARunAfterDays (zx d)
+  | [Atom "outofbounds"; t] -> ARunIfOutOfBounds (num_of t)
+  | [Atom "everyn"; n; off] -> ARunEveryNPeriods (zx n, z_of_int (int_of n - int_of off - 1), None)
+  | [Atom "selectall"; a; b] -> ASelectAll (bool_of a, bool_of b)
+  | [Atom "selectthese"; tk; a; b] -> ASelectThese (List.map natx (lst tk), bool_of a, bool_of b)
+  | [Atom "hasdata"; m; d; mc; a; b] -> ASelectHasData (off_of m d, num_of mc, bool_of a, bool_of b)
+  | [Atom "selectn"; n; desc; aon; filt] -> ASelectN (num_of n, not (bool_of desc), bool_of aon, bool_of filt)
+  | [Atom "selectwhere"; k; a; b] -> ASelectWhere (natx k, bool_of a, bool_of b)
+  | [Atom "selectregex"; _; m] -> ASelectRegex (List.map natx (lst m))
+  | [Atom "setstat"; k; m; d] -> ASetStat (natx k, off_of m d)
+  | [Atom "totalreturn"; m; d; lm; ld] -> AStatTotalReturn (off_of m d, off_of lm ld)
+  | [Atom "weighequally"] -> AWeighEqually
+  | [Atom "weighspecified"; w] -> AWeighSpecified (wlist_of w)
+  | [Atom "scale"; x] -> AScaleWeights (num_of x)
+  | [Atom "weightarget"; k] -> AWeighTarget (natx k)
+  | [Atom "limitdeltas"; g; per] -> ALimitDeltas (opt num_of g, wlist_of per)
+  | [Atom "limitweights"; l] -> ALimitWeights (num_of l)
+  | [Atom "capitalflow"; a] -> ACapitalFlow (num_of a)
+  | [Atom "closedead"] -> ACloseDead
+  | [Atom "setnotional"; k] -> ASetNotional (natx k)
+  | [Atom "rebalance"] -> ARebalance
+  | [Atom "rebalanceovertime"; n] -> ARebalanceOverTime (num_of n, None, None)
+  | [Atom "require"; p; it; d] -> ARequire (pred_of p, titem_of it, bool_of d)
+  | [Atom "not"; a] -> ANot (algo_of a)
+  | [Atom "or"; l] -> AOr (List.map algo_of (lst l))
+  | [Atom "stack"; l] -> AStack (List.map algo_of (lst l))
+  | [Atom "always"; f; a] -> AAlways (bool_of f, algo_of a)
+  | [Atom "selecttypes"; i; e] -> ASelectTypes (List.map nkind_of (lst i), List.map nkind_of (lst e))
+  | [Atom "selectactive"] -> ASelectActive
+  | [Atom "closeafter"; k] -> AClosePositionsAfterDates (natx k)
+  | [Atom "rollafter"; k] -> ARollPositionsAfterDates (natx k)
+  | [Atom "replay"; k] -> AReplayTransactions (natx k)
+  | Atom a :: _ -> failwith ("algo " ^ a)
+  | _ -> failwith "algo"
+let mk_astate is_strategy algos : astate =
+  { a_is_strategy = is_strategy; a_stack = algos; a_temp = empty_temp (Obj.magic 0);
+    a_closed = []; a_rolled = []; a_has_closed = false; a_has_rolled = false }
+let adata_of s : adata = match lst s with
+  | [Atom "frame"; idx; cols] -> DFrame (List.map zx (lst idx), frame_of cols)
+  | [Atom "dates"; l] -> DDates (List.map (fun x -> match lst x with [k; d] -> (natx k, zx d) | _ -> failwith "dates") (lst l))
+  | [Atom "roll"; l] -> DRoll (List.map (fun x -> match lst x with
+      | [k; d; tg; f] -> (natx k, ((zx d, natx tg), num_of f)) | _ -> failwith "roll") (lst l))
+  | [Atom "trans"; l] -> DTrans (List.map (fun x -> match lst x with
+      | [d; k; q; pr] -> (((zx d, natx k), num_of q), num_of pr) | _ -> failwith "trans") (lst l))
+  | _ -> failwith "adata"
+let rec spec_of s : astate nspec = match lst s with
+  | [Atom "strat"; id; fi; kids; algos] ->
+    SpStrat (natx id, bool_of fi, mk_astate true (List.map algo_of (lst algos)), List.map spec_of (lst kids))
   | [Atom "sec"; id; cls; fi; mult; lz] -> SpSec (natx id, class_of cls, bool_of fi, num_of mult, bool_of lz)
-  | [Atom "strat"; id; fi; kids] -> SpStrat (natx id, bool_of fi, (), List.map spec_of (lst kids))
+  | [Atom "strat"; id; fi; kids] -> SpStrat (natx id, bool_of fi, mk_astate false [], List.map spec_of (lst kids))
   | _ -> failwith "spec"
 let path_of s = List.map natx (lst s)
 let date_of s = match atom s with "none" -> None | a -> Some (nat_of_int (int_of_string a))
@@ -97,10 +165,10 @@ let err_name (e : err) = match e with
   | EBidofferIdx -> "EBidofferIdx" | ECustomNoBidoffer -> "ECustomNoBidoffer" | EZeroBase -> "EZeroBase"
   | EZeroNotl -> "EZeroNotl" | EFiChild -> "EFiChild" | EDupChild -> "EDupChild" | EDupColumn -> "EDupColumn"
   | ESizingStuck -> "ESizingStuck" | ESizingDiverged -> "ESizingDiverged" | ESizingLoop -> "ESizingLoop"
-  | EParentless -> "EParentless" | EAttr -> "EAttr" | EIndex -> "EIndex" | EType -> "EType"
+  | EParentless -> "EParentless" | EAttr -> "EAttr" | EIndex -> "EIndex" | EType -> "EType" | EValue -> "EValue"
   | ENanArith -> "ENanArith" | EOutOfFuel -> "EOutOfFuel" | EOther -> "EOther"
 
-let rec dump_node (path : string) (n : unit node) =
+let rec dump_node (path : string) (n : astate node) =
   match n with
   | NSec s ->
     Printf.printf "%s kind S\n" path;
@@ -149,7 +217,7 @@ let rec dump_node (path : string) (n : unit node) =
        Printf.printf "%s~ stale %s\n" path (pb st);
        dump_node (path ^ "~") p)
 
-let dump_tree (tr : unit tree) =
+let dump_tree (tr : astate tree) =
   Printf.printf "r stale %s\n" (pb (snd tr));
   dump_node "r" (fst tr)
 
@@ -192,6 +260,29 @@ let run_case (c : sexp) =
                cur := tr';
                if full || i = nops - 1 then dump_tree tr') ops);
     Printf.printf "END\n"
+  | L (Atom "backtest" :: Atom name :: items) ->
+    Printf.printf "CASE %s\n" name;
+    let dates = List.map zx (lst (List.hd (find "dates" items))) in
+    let intpos = bool_of (List.hd (find "intpos" items)) in
+    let comm = comm_of (L (find "comm" items)) in
+    let prices = frame_of (List.hd (find "prices" items)) in
+    let kwf k = opt frame_of (List.hd (find k items)) in
+    let kw = { kw_bidoffer = kwf "bidoffer"; kw_coupons = kwf "coupons";
+               kw_cost_long = kwf "cost_long"; kw_cost_short = kwf "cost_short" } in
+    let ad = List.map (fun x -> match lst x with [k; a] -> (natx k, adata_of a) | _ -> failwith "adata entry")
+        (lst (List.hd (find "adata" items))) in
+    let capital = num_of (List.hd (find "capital" items)) in
+    let spec = spec_of (List.hd (find "tree" items)) in
+    (match f_backtest dates prices kw ad intpos (f_comm comm) capital spec with
+     | Err e -> Printf.printf "BUILD ok\nOP 0 err %s\n" (err_name e)
+     | Ok tr -> Printf.printf "BUILD ok\nOP 0 ok nan\n"; dump_tree tr);
+    Printf.printf "END\n"
+  | L (Atom "cal" :: tss) ->
+    List.iter (fun t -> Printf.printf "%s\n" (String.concat " " (List.map (fun x -> string_of_int (int_of_z x)) (f_cal (zx t))))) tss
+  | L [Atom "suboff"; l] ->
+    List.iter (fun x -> match lst x with
+        | [t; m; d] -> Printf.printf "%d\n" (int_of_z (f_sub_offset (zx t) (zx m) (zx d)))
+        | _ -> failwith "suboff") (lst l)
   | _ -> failwith "case expected"
 
 let () =
